@@ -253,7 +253,7 @@ CONSTANTS
 def check_pairs(prop, tier, seed, work, modes, invariants, also=()):
     """C03 / C05 (and the MergeStructs half of C04): every ordered pair of trees of the small
     slices P, Q (and R in the thorough tier) is an initial state of PairLaws."""
-    cfgs = ["us", "cw"] if tier == "quick" else ["us", "uw", "cs", "cw", "co"]
+    cfgs = (["us", "cw", "cs"] if prop == "C03" else ["us", "cw"]) if tier == "quick" else ["us", "uw", "cs", "cw", "co"]
     h, bindir = vf.prepare(work, cfgs)
     two = dict(vals=q(["v1", "v2"]), keys=q(["K1", "K2"]), mkeys="")
     slices = [("P", dict(two, enabled="EnabledP")), ("Q", dict(two, enabled="EnabledQ"))]
